@@ -563,8 +563,54 @@ where
     run.add_class("seeds of every length 0..=18 (three streams, extended by ZERO / ONE) checked for pairwise different outputs", cases);
 }
 
+/// A long stream of base-element draws over the 62-bit field, compared value by value with the reference coin. The
+/// 62-bit modulus leaves a narrow window [p, 2^62) of 8-byte candidates that look like field elements but are not
+/// (about 2^-18 of all candidates): short histories never meet it. The stream runs until the reference coin has rejected
+/// `want_window` candidates from that window (vacuity guard: it must meet at least one).
+fn long_stream<H: CoinSpec>(run: &Arc<Run>, want_window: u32, max_draws: u64)
+where
+    H::Digest: 'static,
+{
+    let seed = H::seed(2);
+    let mut coin = DefaultRandomCoin::<H>::new(&seed);
+    let mut rc = RefCoin::<H> { seed: H::hash_elements(&seed), counter: 0 };
+    let (mut window, mut draws) = (0u32, 0u64);
+    let name = format!("coin.{}.long_stream", H::NAME);
+    while window < want_window && draws < max_draws {
+        draws += 1;
+        let mut want = None;
+        for _ in 0..1000 {
+            let d = rc.next();
+            let x = u64::from_le_bytes(d.as_bytes()[..8].try_into().unwrap()) as u128;
+            if x < H::P {
+                want = Some(x);
+                break;
+            }
+            if x < (1u128 << 62) {
+                window += 1;
+            }
+        }
+        let got = pan::catch(|| H::draw_real(&mut coin, 1));
+        let want_bytes = want.map(|x| (x as u64).to_le_bytes().to_vec());
+        match (got, want_bytes) {
+            (Ok(Ok(g)), Some(w)) if g == w => {},
+            (Ok(g), w) => {
+                run.add_violation(&name, draws, &format!("{}: a draw differs from the reference coin", H::NAME), json!({"draw_number": draws, "reference_counter": rc.counter, "candidates_rejected_from_the_window_below_2^62": window, "got": format!("{:?}", g), "want": format!("{:?}", w)}));
+                break;
+            },
+            (Err(p), _) => {
+                run.add_violation(&name, draws, &format!("{}: coin panics ({})", H::NAME, p.class()), json!({"draw_number": draws}));
+                break;
+            },
+        }
+    }
+    run.require(window >= 1, &format!("C19: the long draw stream of {} never met a candidate in [p, 2^62)", H::NAME));
+    run.add_counts(draws, draws, 0, 0, 0);
+    run.add_class(&format!("{}: consecutive base-element draws compared with the reference coin ({} candidate(s) rejected from the window [p, 2^62))", H::NAME, window), draws);
+}
+
 pub fn run(run: &Arc<Run>) {
-    run.rule("explicit-state BFS over coin histories {new(4 seeds), reseed(2 digests), draw base/quadratic/cubic, draw_integers(k,2^m,nonce) for 7 (k,m,nonce) triples with k in {1,2,255} and m in {1,8,32}, check_leading_zeros(3 values)} for all six hashers; states keyed by the reference coin's (seed, counter); every transition executed on the real coin and on the reference coin and compared (a trace validated against the implementation); each state additionally probed for its next outputs, which must be a function of, and injective in, the key; seed sensitivity: seeds of every length 0..=18 over three element streams, extended by ZERO / ONE, give pairwise different outputs; representation independence: seeds re-derived through field arithmetic (equal as values, other internal images for the 62-bit field) give identical outputs; nonce sensitivity: from 12 coin states per hasher every nonce of a boundary alphabet (multiples of the field modulus +-2, 2^b and 2^b-1 for every b, the extremes; about 150 values) must lead to pairwise different (27 integers, next draw)");
+    run.rule("explicit-state BFS over coin histories {new(4 seeds), reseed(2 digests), draw base/quadratic/cubic, draw_integers(k,2^m,nonce) for 7 (k,m,nonce) triples with k in {1,2,255} and m in {1,8,32}, check_leading_zeros(3 values)} for all six hashers; states keyed by the reference coin's (seed, counter); every transition executed on the real coin and on the reference coin and compared (a trace validated against the implementation); each state additionally probed for its next outputs, which must be a function of, and injective in, the key; long streams: consecutive base-element draws over the 62-bit field (Blake3_192; the digests of the algebraic hashers are field elements already and are never rejected) compared with the reference coin until it has rejected candidates from the narrow window [p, 2^62) (about 2^-18 of all candidates); seed sensitivity: seeds of every length 0..=18 over three element streams, extended by ZERO / ONE, give pairwise different outputs; representation independence: seeds re-derived through field arithmetic (equal as values, other internal images for the 62-bit field) give identical outputs; nonce sensitivity: from 12 coin states per hasher every nonce of a boundary alphabet (multiples of the field modulus +-2, 2^b and 2^b-1 for every b, the extremes; about 150 values) must lead to pairwise different (27 integers, next draw)");
     run.assume("hash_elements / merge / merge_with_int / Digest::as_bytes of each hasher are correct (C11)");
     run.assume("draw_integers precondition k < 2^m is respected (documented assertion)");
     let t = run.tier();
@@ -574,6 +620,7 @@ pub fn run(run: &Arc<Run>) {
     explore::<hashers::Rp64_256>(run, t.pick(3, 4));
     explore::<hashers::Rp62_248>(run, t.pick(3, 4));
     explore::<hashers::RpJive64_256>(run, t.pick(3, 4));
+    long_stream::<hashers::Blake3_192<B62>>(run, if run.tier().is_thorough() { 8 } else { 2 }, 3_000_000);
     seed_sensitivity::<hashers::Blake3_256<B64>>(run);
     seed_sensitivity::<hashers::Blake3_192<B62>>(run);
     seed_sensitivity::<hashers::Sha3_256<B128>>(run);
